@@ -790,6 +790,12 @@ def _process_step_result_tick(
                     f"Unknown result type returned from step function ({tick.step_name}): {type(result.result)}"
                 )
         elif isinstance(result, StepWorkerFailed):
+            if not step_no_longer_in_progress:
+                # already scheduled to run again with a refreshed snapshot (an
+                # earlier AddCollectedEvent of this list met a stale one): the
+                # failure of the stale execution is moot; the re-run fails on
+                # its own if it must, and is counted once
+                continue
             # Schedule a retry if permitted, otherwise fail the workflow
             retries = worker_state.config.retry_policy
             failures = this_execution.attempts + 1
